@@ -408,13 +408,15 @@ bool ASTInterpreter::ViDeclarative(Cursor iter) {
       );
       return false;
     }
-    idsData[varID] = child;
+    // Note: child refers to the element cache of a lazy domain, which evaluating the predicate may clear
+    const StructuredData element = child;
+    idsData[varID] = element;
     const auto predicatValue = EvaluateChild(iter, 2);
     if (!predicatValue.has_value()) {
       return false;
     }
     if (std::get<bool>(predicatValue.value())) {
-      result.ModifyB().AddElement(child);
+      result.ModifyB().AddElement(element);
     }
   }
   return SetCurrent(std::move(result));
